@@ -1,0 +1,4 @@
+// Package vhook provides named yield points for external verification
+// harnesses. Without the `verif` build tag, At is an empty function that the
+// compiler inlines away, so call sites have no effect on normal builds.
+package vhook
